@@ -112,10 +112,17 @@ class C20:
         kinds = ['raise', 'false', 'stale', 'empty', 'malformed', 'slow']
         en = ch.subset('fkinds', len(kinds), 0.45)
         self.fault_kinds = [kinds[i] for i in en] or ['raise']
+        self.honest_views = ch.coin('honest_views', 0.5)
+        if self.honest_views:
+            # providers may fail (raise / False / time out) but never disagree about the chain
+            self.fault_kinds = [x for x in self.fault_kinds if x in ('raise', 'false', 'slow')] or ['raise']
         self.spare_blockcount = ch.coin('spare_bc', 0.6)
         self.bc_cache_time = ch.pick('bcct', [3, 0, 1, 10])
         self.lags = [ch.weighted('lag', [(0, 6), (1, 2), (2, 1)]) for _ in range(self.k)]
         self.nomempool = [ch.coin('nomp', 0.15) for _ in range(self.k)]
+        if self.honest_views:
+            self.lags = [0] * self.k
+            self.nomempool = [False] * self.k
         self.missing = {}
         if ch.coin('has_missing', 0.2):
             pid = ch.index('missing_pid', self.k)
@@ -420,6 +427,10 @@ class C20:
                 if c['kind'] in ('malformed', 'empty'):
                     return
         if self.poisoned():
+            return
+        if name == 'blockcount' and not execs:
+            # a failed block count is remembered for BLOCK_COUNT_CACHE_TIME seconds; failing again is not fabrication
+            self.w.probe('blockcount_failure_remembered')
             return
         self.w.violation('failed_without_failed_execution',
                          {'method': name, 'how': type(exc).__name__ if exc is not None else 'False'},
@@ -759,7 +770,9 @@ class C20:
         want = b.txids[(page - 1) * limit: page * limit]
         got = [t.txid if is_tx(t) else t for t in ret.transactions]
         if got != want:
-            w.violation('cache_infidelity', sig, 'cached block %d page %d limit %d lists %s, stored %s' %
+            in_block = all(g in b.txids for g in got) and len(set(got)) == len(got)
+            w.violation('cache_infidelity', dict(sig, cause='cache_index' if in_block else 'other'),
+                        'cached block %d page %d limit %d lists %s, stored %s' %
                         (b.height, page, limit, [g[:8] for g in got], [x[:8] for x in want]))
         for t in ret.transactions:
             if is_tx(t):
@@ -800,16 +813,23 @@ class C20:
         if name == 'gettransactions':
             a = [snap_tx(t) for t in first]
             b = [snap_tx(t) for t in second]
-            if len(b) > len(a) or [strict_part(x) for x in b] != [strict_part(x) for x in a[:len(b)]]:
-                ha = {x['txid']: x['block_height'] for x in a}
-                ids_b = [x['txid'] for x in b]
-                reorder = sorted(ids_b) == sorted(x['txid'] for x in a[:len(b)]) and \
-                    all((ha[p] or 0) <= (ha[q] or 0) for p, q in zip(ids_b, ids_b[1:]))
+            ids_a = [x['txid'] for x in a]
+            ids_b = [x['txid'] for x in b]
+            if self.lied:
+                # providers with different views were composed; only element-wise fidelity is meaningful
+                ids_a = ids_b
+            if ids_b != ids_a[:len(ids_b)]:
+                reorder = self.same_block_reorder(args[0], ids_b) or self.permuted_in_block(args[0], ids_b, ids_a)
                 w.violation('cache_infidelity', dict(sig, cause='same_block_cache_order' if reorder else 'other'),
                             'replayed history %s is no prefix of the stored answer %s' %
-                            ([x['txid'][:8] for x in b], [x['txid'][:8] for x in a]))
+                            ([x[:8] for x in ids_b], [x[:8] for x in ids_a]))
+            else:
+                for y in b:
+                    if not any(strict_part(f) == strict_part(y) for f in self.facts_tx.get(y['txid'], [])):
+                        w.violation('cache_infidelity', dict(sig, cause='content'),
+                                    'replayed transaction %s equals no stored provider answer' % y['txid'][:16])
             for t in first[len(b):]:
-                if t.block_height and t.confirmations:
+                if t.block_height and t.confirmations and not self.lied:
                     cause = 'after_txid_not_in_cache' if kwargs.get('after_txid') and not b else 'other'
                     w.violation('cache_infidelity', dict(sig, cause=cause),
                                 'replay from cache lost confirmed transaction %s although the call succeeded' %
@@ -825,8 +845,40 @@ class C20:
             a = [t.txid if is_tx(t) else t for t in first.transactions]
             b = [t.txid if is_tx(t) else t for t in second.transactions]
             if a != b or first.block_hash != second.block_hash:
-                w.violation('cache_infidelity', sig, 'replayed block differs: %s vs %s' %
-                            ([x[:8] for x in b], [x[:8] for x in a]))
+                same = first.block_hash == second.block_hash and len(set(b)) == len(b)
+                w.violation('cache_infidelity', dict(sig, cause='cache_index' if same else 'other'),
+                            'replayed block differs: %s vs %s' % ([x[:8] for x in b], [x[:8] for x in a]))
+
+    def permuted_in_block(self, address, ids_b, ids_a):
+        from ref import codec as rcodec
+        hist = self.chain.history_of(rcodec.address_to_script(address, self.network), View())
+        hmap = {c.txid: (c.height if c.height is not None else 10 ** 9) for c in hist}
+        if sorted(ids_b) != sorted(ids_a[:len(ids_b)]) or any(i not in hmap for i in ids_b):
+            return False
+        hs = [hmap[i] for i in ids_b]
+        return all(a <= b for a, b in zip(hs, hs[1:]))
+
+    def same_block_reorder(self, address, ids):
+        """True when `ids` is the address's true history up to a cut, except for the order (and, at the cut, the
+        choice) of transactions inside one block - the signature of the cache's block-index semantics."""
+        from ref import codec as rcodec
+        hist = self.chain.history_of(rcodec.address_to_script(address, self.network), View())
+        hmap = {c.txid: (c.height if c.height is not None else 10 ** 9) for c in hist}
+        if len(set(ids)) != len(ids) or any(i not in hmap for i in ids) or not ids:
+            return False
+        hs = [hmap[i] for i in ids]
+        if any(a > b for a, b in zip(hs, hs[1:])):
+            return False
+        top = max(hs)
+        for h in set(hs):
+            true_h = {t for t, th in hmap.items() if th == h}
+            got_h = {i for i in ids if hmap[i] == h}
+            if h < top and got_h != true_h:
+                return False
+        # nothing older than the first listed transaction may be missing
+        if any(th < min(hs) for th in hmap.values()):
+            return False
+        return True
 
     # -- operations ------------------------------------------------------------------------------------
     def addresses(self):
@@ -955,10 +1007,11 @@ class C20:
         what = ch.pick('wipe', ['transactions', 'addresses', 'vars', 'blocks', 'half_nodes'])
         w.op('wipe_cache', what=what)
         w.faults['cache_partial'] = w.faults.get('cache_partial', 0) + 1
+        # the partially filled cache is what the *next* Service objects find: close the current ones first
         for srv in self.services:
             if srv is not None and srv.cache and srv.cache.session:
-                srv.cache.session.expire_all()
-                srv.cache.session.rollback()
+                srv.cache.session.close()
+        self.services = []
         for i in (0, 1):
             p = self.cache_path(i)
             if not os.path.exists(p):
@@ -1017,7 +1070,7 @@ class C20:
                 hist = self.chain.history_of(rcodec.address_to_script(a, self.network), View())
                 want = [c.txid for c in hist]
                 got = [t.txid for t in v]
-                if got != want:
+                if got != want and len(set(got)) == len(got):
                     hmap = {c.txid: c.height for c in hist}
                     if sorted(got) == sorted(want):
                         pos = {x: i for i, x in enumerate(want)}
